@@ -19,7 +19,7 @@ func init() {
 	Registry["C13"] = &Check{
 		Spec: func(tier string) evid.Spec {
 			return evid.Spec{ID: "C13", Level: "exploration", Exhaustive: true,
-				Rule: "configurations = ordered selections of 1-3 of 5 scopes (overlapping prefixes 10.0.0.0/8, 10.1.0.0/16, ::/0, {2001:db8::/32,192.168.0.0/24}, a user-less scope on 10.0.0.0/8; distinct keys) x deny{none,[10.1.2.0/24],[2001:db8:1::/48],[0.0.0.0/0]} " +
+				Rule: "configurations = ordered selections of 1-3 of 6 scopes (overlapping prefixes 10.0.0.0/8, 10.1.0.0/16, ::/0, {2001:db8::/32,192.168.0.0/24}, a user-less scope on 10.0.0.0/8, a scope with nested prefixes {10.0.0.0/8, 10.20.0.0/16, 10.20.30.0/24, 2001:db8::/32, 2001:db8:20::/48}; distinct keys) x deny{none,[10.1.2.0/24],[2001:db8:1::/48],[0.0.0.0/0]} " +
 					"x allow{none,[10.0.0.0/8],[2001:db8::/32,10.1.0.0/16]}; addresses = for every prefix in the configuration its first-1, first, last, last+1 address, as IPv4, IPv6 and IPv4-mapped IPv6, plus a non-TCP address. " +
 					"Level 1: the real Loader.Get result (secret, handler, error) for every (configuration, address) against the reference admission model. Level 2 (full server over the scripted network, one configuration per scope-order class): " +
 					"a refused connection is closed with zero bytes written and zero handler invocations; a served one answers a command authorization obfuscated with the bound scope's key under that key, grants it for a user of that scope " +
@@ -61,6 +61,8 @@ var c13Scopes = []c13Scope{
 	{"v6all", "key-v6all", []string{"::/0"}, true},
 	{"mixed", "key-mixed", []string{"2001:db8::/32", "192.168.0.0/24"}, true},
 	{"empty", "key-empty", []string{"10.0.0.0/8"}, false},
+	// prefixes nested inside one scope: an address above the narrow ones is still inside the wide one
+	{"nested", "key-nested", []string{"10.0.0.0/8", "10.20.0.0/16", "10.20.30.0/24", "2001:db8::/32", "2001:db8:20::/48"}, true},
 }
 
 type unixAddr struct{}
